@@ -14,7 +14,8 @@ ID = "C04"
 LEVEL = "proof"
 LEAN_IMPORTS = ["WM.Props.C04"]
 THEOREMS = ["WM.C04.mutex", "WM.C04.generation", "WM.C04.no_lost_update", "WM.C04.lock_released",
-            "WM.C04.trace_is_script", "WM.C04.failed_acquire_inert", "WM.C04.script_runs_to_release"]
+            "WM.C04.trace_is_script", "WM.C04.failed_acquire_inert", "WM.C04.script_runs_to_release",
+            "WM.C04.failed_init_disciplined", "WM.C04.finished_writer_not_holder"]
 PARTIAL = {}
 RULE = ("(a) storage traces of real writer lifetimes (SegmentWriter commit/cancel/failing with-block, AsyncWriter both "
         "paths, BufferedWriter restarts, MpWriter in thorough) mapped to steps and checked by the Lean LockDiscipline; "
@@ -22,7 +23,10 @@ RULE = ("(a) storage traces of real writer lifetimes (SegmentWriter commit/cance
         "timeout 0 and >0, watchdog against blocking): one case = (storage, canonical trace prefix); non-trivial = the "
         "first writer holds the lock at that boundary; (c) random sequential schedules of coarse writer steps "
         "(open / add / commit / cancel of up to 4 writers) executed on the real index and on the Lean machine; "
-        "(d) thorough: races of 2-8 threads and 2-4 processes.")
+        "(d) thorough: races of 2-8 threads and 2-4 processes; (e) failed constructors: SegmentWriter.__init__ is made to "
+        "raise after the acquire at each of its stages (TOC unreadable, temp storage, new_segment, per_document_writer, "
+        "field_writer; File and RAM storage): the logged lifetime must satisfy the Lean TraceDiscipline (ends with the "
+        "release) and a second writer must then open and commit (non-trivial = the constructor raised after acquiring).")
 ASSUMPTIONS = [
     "flock / threading.Lock are exclusive; the OS releases a flock when the process dies",
     "fairness and time are not modelled: 'after the requested timeout' is checked on the real code only",
@@ -942,6 +946,115 @@ def _canary(ctx, scratch):
     return blocked
 
 
+class _FailingCodec(object):
+    """Delegates to the default codec and raises at one chosen stage of SegmentWriter.__init__."""
+
+    def __init__(self, stage):
+        from whoosh.codec import default_codec
+        self._c = default_codec()
+        self._stage = stage
+
+    def _hit(self, name):
+        if self._stage == name:
+            raise T.Boom()
+
+    def new_segment(self, storage, indexname):
+        self._hit("new_segment")
+        return self._c.new_segment(storage, indexname)
+
+    def per_document_writer(self, storage, segment):
+        self._hit("per_document_writer")
+        return self._c.per_document_writer(storage, segment)
+
+    def field_writer(self, storage, segment):
+        self._hit("field_writer")
+        return self._c.field_writer(storage, segment)
+
+    def __getattr__(self, a):
+        return getattr(self._c, a)
+
+
+def _failed_constructors(ctx, scratch):
+    """(e) of RULE.  The exception object is kept alive while the second writer is attempted, as a logging
+    framework or a debugger would: the release must not depend on garbage collection."""
+    from whoosh import index
+    lines, meta = [], []
+    for ram in (False, True):
+        for stage in ("toc", "tmp", "new_segment", "per_document_writer", "field_writer"):
+            base = tempfile.mkdtemp(prefix="c04f-", dir=scratch)
+            case = {"seed": "failed-init", "storage": "ram" if ram else "file", "stage": stage, "stream": "failed-init"}
+            try:
+                if ram:
+                    st = T.TracingRamStorage()
+                    st.tmpbase = base
+                else:
+                    st = T.TracingFileStorage(os.path.join(base, "ix"))
+                    os.makedirs(st.folder)
+                st.tracer.enabled = False
+                index.FileIndex.create(st, T.make_schema(), IX)
+                ix = index.FileIndex(st, indexname=IX)
+                w = ix.writer()
+                w.add_document(k=u"k0", t=u"alfa", g=u"alfa", n=1)
+                w.commit()
+                kw = {}
+                undo = None
+                if stage == "toc":
+                    real = ix._read_toc
+
+                    def bad():
+                        real()
+                        raise T.Boom()
+                    ix._read_toc = bad
+                    undo = lambda: ix.__dict__.pop("_read_toc", None)
+                elif stage == "tmp":
+                    realt = st.temp_storage
+
+                    def badt(name=None):
+                        raise T.Boom()
+                    st.temp_storage = badt
+                    undo = lambda: st.__dict__.pop("temp_storage", None)
+                else:
+                    kw["codec"] = _FailingCodec(stage)
+                st.tracer.events[:] = []
+                st.tracer.enabled = True
+                st.tracer.actor = "w"
+                kept = None
+                try:
+                    ix.writer(**kw)
+                    raised = False
+                except T.Boom as e:
+                    kept = e
+                    raised = True
+                st.tracer.finish()
+                st.tracer.enabled = False
+                if undo:
+                    undo()
+                events = list(st.tracer.events)
+                acquired = any(e[1] == "acquire" and e[3] for e in events)
+                ctx.case(("failed-init", ram, stage), nontrivial=raised and acquired)
+                ctx.stat("failed-init:%s:%s" % (stage, "raised-after-acquire" if raised and acquired else "other"))
+                for life in lifetimes(events, "w"):
+                    lines.append("c04 discipline (%s)" % " ".join(compress(life)))
+                    meta.append((case, "failed-init", life))
+                # end to end: the index is not dead-locked
+                try:
+                    w2 = ix.writer(timeout=0.0)
+                    w2.add_document(k=u"k1", t=u"bravo", g=u"alfa", n=2)
+                    w2.commit()
+                    ok = ix.doc_count() == 2
+                    res = "ok" if ok else "doc_count=%d" % ix.doc_count()
+                except Exception as e:  # noqa
+                    res = "%s: %s" % (T.errname(e), str(e)[:80])
+                del kept
+                if res != "ok":
+                    ctx.violation("lock-not-released:SegmentWriter.__init__-raises-after-acquire", case,
+                                  "a later writer opens and commits", res,
+                                  "the constructor failed after taking the write lock and nobody released it")
+            finally:
+                shutil.rmtree(base, ignore_errors=True)
+    _judge_discipline(ctx, lines, meta)
+
+
 BLOCKED_STORAGES = set()
 
 
@@ -949,6 +1062,7 @@ def run(ctx):
     _corpus(ctx)
     with ctx.scratch() as scratch:
         BLOCKED_STORAGES.update(_canary(ctx, scratch))
+        _failed_constructors(ctx, scratch)
         _main(ctx, scratch, "main", ctx.budget(48, 160), ctx.budget(4, 6), ctx.budget(2, 1))
         if ctx.tier == "thorough":
             jobs = []
@@ -1035,7 +1149,9 @@ def _replay_case(ctx, rec, scratch):
     if "seed" not in case:
         return False
     before = len(ctx.violations) + len(ctx.divergences)
-    if case.get("stream") == "schedules" or "sched" in case:
+    if case.get("stream") == "failed-init":
+        _failed_constructors(ctx, scratch)
+    elif case.get("stream") == "schedules" or "sched" in case:
         _judge_schedules(ctx, [schedule_job({"seed": case["seed"], "ram": case.get("storage") == "ram", "scratch": scratch})])
     elif "kind" in case:
         lines, meta = [], []
